@@ -8,7 +8,7 @@ from __future__ import annotations
 import enum
 from typing import Any, Callable
 
-from vf.specs import F, Program, Sp, default_value, named
+from vf.specs import F, Program, Sp, default_value, named, static_alias
 
 
 class SerOpts:
@@ -169,7 +169,7 @@ class RefSer:
             img = self.ser(fsp, x)
             if img is Undef:
                 continue
-            out[self.o.aliaser(f.ext)] = img
+            out[self.o.aliaser(static_alias(s, f))] = img
         for name, alias, ret, kind in s.opt("smethods", ()):
             x = getattr(v, name) if kind == "property" else getattr(v, name)()
             if is_undefined(x):
